@@ -24,7 +24,11 @@ func gatherMetrics() M {
 		for _, mm := range mf.GetMetric() {
 			var ls []string
 			for _, lp := range mm.GetLabel() {
-				ls = append(ls, lp.GetName()+"="+lp.GetValue())
+				v := lp.GetValue()
+				if i := strings.IndexByte(v, '('); i > 0 && strings.HasSuffix(v, ")") {
+					v = v[:i] // "0xc0(Node Busy)" -> "0xc0": descriptions are presentation, not accounting
+				}
+				ls = append(ls, lp.GetName()+"="+v)
 			}
 			sort.Strings(ls)
 			key := mf.GetName()
